@@ -1,0 +1,28 @@
+//go:build verif
+
+// Contracts for package bytetree (comment-only; read by /verif/bin/zv, never compiled into the product).
+package bytetree
+
+// C18: a snapshot taken by Copy must not share mutable memory with the live tree: the Tree object and every copied
+// node are freshly allocated (copies_fresh), and the per-field sequence slices the copies hold must not be the live
+// tree's own slices (copies_own_data) - Tree.Update later writes n.data[i] and the sequence bytes in place.
+//@ func (*Tree).Copy
+//@   requires bt != nil && bt.root != nil
+//@   modifies *
+//@   ensures fresh_tree: result != nil && fresh(result) && result.root != nil && fresh(result.root)
+//@   loop 0 invariant copies_fresh: forall k in 0..len(nodeCopies) :: nodeCopies[k] != nil && fresh(nodeCopies[k])
+//@   loop 0 invariant copies_own_data: forall k in 0..len(nodeCopies) :: obj(nodeCopies[k].data) == 0 || fresh(nodeCopies[k].data)
+//@   loop 0 invariant same_len: len(nodes) == len(nodeCopies)
+//@   loop 0 invariant sep: obj(nodes) != obj(nodeCopies) && obj(nodes) != 0 && obj(nodeCopies) != 0
+//@   loop 0 invariant cp_fresh: cp != nil && fresh(cp) && cp.root != nil && fresh(cp.root)
+//@   loop 1 invariant copies_fresh: forall k in 0..len(nodeCopies) :: nodeCopies[k] != nil && fresh(nodeCopies[k])
+//@   loop 1 invariant copies_own_data: forall k in 0..len(nodeCopies) :: obj(nodeCopies[k].data) == 0 || fresh(nodeCopies[k].data)
+//@   loop 1 invariant same_len: len(nodes) == len(nodeCopies)
+//@   loop 1 invariant sep: obj(nodes) != obj(nodeCopies) && obj(nodes) != 0 && obj(nodeCopies) != 0
+//@   loop 1 invariant cpn_fresh: cpn != nil && fresh(cpn)
+//@   loop 1 invariant cp_fresh: cp != nil && fresh(cp) && cp.root != nil && fresh(cp.root)
+
+//@ func (*Tree).Length
+//@   requires bt != nil
+//@   pureheap
+//@   ensures val: result == bt.length
